@@ -132,10 +132,39 @@ fn macro_binding() {
         n += 1;
         if let Some(w) = run_case("", &[Param::Delimited(d2.clone()), Param::Undelimited], false, r, &[a2, a1]) { println!("WITNESS {w}"); return; }
     } } } }
-    // the trailing #{ form: \def\a#1#{..}: #1 is delimited by the brace
-    for r in repls1 { for a in ["", "x", "xy", "{x}", "{x}y"] {
+    // the trailing #{ form: \def\a#1#{..}: #1 is delimited by the brace, also with further delimiter tokens before it
+    // (\def\a#1.#{..}, \def\a#1,.#{..}) and after an earlier parameter
+    for d in [vec!['{'], vec!['.', '{'], vec![',', '.', '{']] { for r in repls1 { for a in ["", "x", "xy", "{x}", "{x}y", "x{y}"] {
         n += 1;
-        if let Some(w) = run_case("", &[Param::Delimited(vec!['{'])], true, r, &[a]) { println!("WITNESS {w}"); return; }
-    } }
+        if let Some(w) = run_case("", &[Param::Delimited(d.clone())], true, r, &[a]) { println!("WITNESS {w}"); return; }
+    } } }
+    for d in [vec!['{'], vec!['.', '{']] { for r in repls2 { for a1 in ["x", "{xy}"] { for a2 in ["", "y", "{y}", "y{x}"] {
+        n += 1;
+        if let Some(w) = run_case("", &[Param::Undelimited, Param::Delimited(d.clone())], true, r, &[a1, a2]) { println!("WITNESS {w}"); return; }
+    } } } }
     println!("STATS {{\"fn\": \"call\", \"cases\": {n}}}");
+}
+
+
+/// C09: calls with UNBALANCED arguments (a stray closing brace before the delimiter, an unclosed group, input ending
+/// inside an argument) end in success or a structured error, never a panic
+#[test]
+fn macro_call_total() {
+    std::panic::set_hook(Box::new(|_| {}));
+    let defs = [r"\def\a #1.{[#1]}", r"\def\a #1.#2,{#2#1}", r"\def\a #1#2.{#1}", r"\def\a #1#{[#1]}", r"\def\a p#1..{#1}"];
+    let calls = ["x}{y.z", "}.", "x}y.", "{x.", "{{x}.y", "}}}.", "x", "", "{", "}", "x}{y.,", "{x}}{.", "p}..", "px.}."];
+    for d in defs { for c in calls {
+        let src = format!("{}\\a {}", d.replace("\\\\", "\\"), c);
+        let s2 = src.clone();
+        let r = std::panic::catch_unwind(move || {
+            let mut vm = texlang::vm::VM::<State>::new_with_built_in_commands(built_ins());
+            vm.push_source("".to_string(), s2).unwrap();
+            let _ = vm.run::<texlang::vm::DefaultHandlers>();
+        });
+        if let Err(payload) = r {
+            let msg = payload.downcast_ref::<String>().cloned().or_else(|| payload.downcast_ref::<&str>().map(|s| s.to_string())).unwrap_or_default();
+            println!("WITNESS {{\"fn\": \"call_total\", \"unit_fns\": [\"call\", \"parse_delimited_argument\", \"parse_undelimited_argument\"], \"source\": \"{}\", \"observed\": \"panic: {}\", \"expected\": \"success or a structured error\"}}", src.replace('\\', "\\\\"), msg.replace('"', "'").replace('\\', "/").chars().take(200).collect::<String>());
+            return;
+        }
+    } }
 }
